@@ -46,6 +46,22 @@ Proof. intro H. rewrite (filter_ext_in f g l H). reflexivity. Qed.
 Lemma covers_spec e x : covers e x = true <-> eleft e <= x < eright e.
 Proof. unfold covers. rewrite andb_true_iff, Z.leb_le, Z.ltb_lt. tauto. Qed.
 
+Lemma filter_nth_seq {A} (f : A -> bool) (d : A) (l : list A) :
+  length (filter (fun i => f (nth i l d)) (seq 0 (length l))) = length (filter f l).
+Proof.
+  assert (G : forall r pre, length (filter (fun i => f (nth i (pre ++ r) d)) (seq (length pre) (length r)))
+                            = length (filter f r)).
+  { induction r as [|a r IH]; intro pre; [reflexivity|].
+    cbn [length seq filter]. rewrite nth_middle.
+    specialize (IH (pre ++ [a])). rewrite <- app_assoc in IH. cbn [app] in IH.
+    rewrite app_length in IH. cbn [length] in IH. rewrite Nat.add_1_r in IH.
+    destruct (f a); cbn [length]; rewrite IH; reflexivity. }
+  exact (G l []). Qed.
+
+Lemma num_children_l_eq es x u : num_children_l es x u = num_children es x u.
+Proof. unfold num_children_l, num_children, children_at, edge_ids, edge_at. f_equal. symmetry.
+  apply (filter_nth_seq (fun e => covers e x && Nat.eqb (eparent e) u) dummy_edge es). Qed.
+
 Section Ref.
   Variable es : list edge.
   Variable L : Z.
